@@ -3,6 +3,7 @@ import S2T.Gen.Schema
 import S2T.Props.C05_History
 import S2T.Props.C05_Streams
 import S2T.Props.C05_Codec
+import S2T.Props.C05_Ctor
 /-!
 # C05 — `to_json` is JSON-serialisable and `from_json` restores the same object
 
